@@ -222,6 +222,11 @@ def rule_C09_no_other_alloc(ctx, rule="C09-onlygate"):
             # impls *for String* (From<LeanString> for String, Extend<LeanString> for String)
             # produce a std String: outside every LeanString property
             continue
+        outty = (ctx.F.fns.get(_re.sub(r"(::\{closure#\d+\})+$", "", path), {}).get("output") or "").strip()
+        if outty.startswith(("alloc::string::String", "alloc::boxed::Box<str", "alloc::vec::Vec<u8", "alloc::borrow::Cow<")):
+            # a conversion whose result is a std container (`to_std_string(&self) -> String`): what it
+            # allocates is that container, not storage of a LeanString
+            continue
         bad = []
         for e in cg.out[path]:
             if e.kind in ("leaf", "mono-leaf"):
@@ -459,7 +464,8 @@ def rule_C10(ctx):
     for path, body in F.bodies.items():
         for bb, t in body.calls():
             if callee_name(t) in ("core::ptr::const_ptr::<impl *const T>::cast_mut",) and t["args"]:
-                e = strip_refs(body.origin_operand(t["args"][0]))
+                from guards import peel_ptr
+                e = peel_ptr(body, body.origin_operand(t["args"][0]))      # (`self.0.cast::<u8>().cast_mut()`)
                 if e[0] == "field" and e[2] == 0 and body.local_ty(t["dest"]["l"]).startswith("*mut"):
                     n += 1
                     gs = guards_at(body, bb)
